@@ -65,6 +65,8 @@ def get_res_int_err() -> Result[int, int]:
 '''
 
 LOCALS = '''let k = 1
+ilist = [1, 2, 3]
+mut mlist = [1, 2, 3]
 mut m = 1
 p = Point(x=1, y=2)
 mut q = Point(x=1, y=2)
@@ -134,6 +136,10 @@ STMT_RULES = {
     "reassign_local_let": dict(bad=f"let j = 1\n{L}j = 2{R}", good="mut j = 1\nj = 2"),
     "reassign_param": dict(bad=f"{L}n = 5{R}", good="m = 5"),
     "field_assign_immutable": dict(bad=f"{L}p.x = 5{R}", good="q.x = 5"),
+    "index_assign_immutable": dict(bad=f"{L}ilist[0] = 5{R}", good="mlist[0] = 5"),
+    "append_on_immutable": dict(bad=f"{L}ilist.append(4){R}", good="mlist.append(4)"),
+    "mut_method_on_immutable": dict(bad=f"{L}frozen.bump(){R}", good="cnt.bump()"),
+    "compound_field_assign_immutable": dict(bad=f"{L}p.x += 1{R}", good="q.x += 1"),
     "wrong_type_annotated_let": dict(bad=f'let z: int = {L}"s"{R}', good="let z: int = 2"),
     "wrong_type_annotated_let_div": dict(bad=f"let z: int = {L}n / 2{R}", good="let z: float = n / 2"),
     "wrong_type_reassign": dict(bad=f'm = {L}"s"{R}', good="m = 2"),
